@@ -261,6 +261,18 @@ def g_items():
         rs.X[j] = y
         E.prove('set-write-visible-in-item', E.eq(item.X, y), sig=kind)
         E.prove('other-item-untouched', E.eq(rs.X[1 - j], (Xb if j == 0 else Xa)), sig=kind)
+        # all conversions replaced at once through the property, with handles (item, sliced sub-set) taken BEFORE
+        sub = rs[j:j + 1]
+        how = E.pick(['list', 'array', 'none'], 'whole-vector-assignment')
+        if how != 'none':
+            w = [E.real(f'w{i}', lo=0, hi=1, nice=(0.1, 0.9)) for i in range(2)]
+            rs.X = list(w) if how == 'list' else C.array(E, list(w))
+            E.prove('whole-vector-write-visible-in-earlier-item-handle', E.eq(item.X, w[j]), sig=f'{kind}/{how}')
+            E.prove('whole-vector-write-visible-in-earlier-subset-handle', E.eq(sub.X[0], w[j]), sig=f'{kind}/{how}')
+            z = E.real('z', lo=0, hi=1, nice=(0.1, 0.9))
+            item.X = z
+            E.prove('item-write-after-whole-vector-write-visible-in-set', E.all([E.eq(rs.X[j], z), E.eq(rs.X[1 - j], w[1 - j])]), sig=f'{kind}/{how}')
+            Xb_, Xa_ = w[1], w[0]
         # items share stoichiometry rows with the set
         E.prove('item-shares-stoichiometry', item._stoichiometry is rs._stoichiometry[j], sig=kind)
         c = item.copy()
